@@ -104,7 +104,7 @@ func (c *Client) handleList() error {
 		case *ListCommand:
 			return true // TODO: match pattern, check if already handled
 		case *SelectCommand:
-			return cmd.mailbox == data.Mailbox && cmd.data.List == nil
+			return mailboxNamesEqual(cmd.mailbox, data.Mailbox) && cmd.data.List == nil
 		default:
 			return false
 		}
